@@ -148,8 +148,9 @@ def run_property(prop, tier='quick', repo='/repo', program=None, write=True, qui
         try:
             r['fn'](ctx)
             n = len(ctx.obs) - n0
-            if n < r['floor']:
-                raise AnalysisError(f'instance floor not met: {n} obligations < {r["floor"]}')
+            fl = r['floor'].get(prop, r['floor'].get('*', 1)) if isinstance(r['floor'], dict) else r['floor']
+            if n < fl:
+                raise AnalysisError(f'instance floor not met: {n} obligations < {fl}')
         except AnalysisError as e:
             ctx.errors.append((r['id'], str(e)))
         except Exception as e:  # internal error: never a verdict
